@@ -1,7 +1,168 @@
-(* Props/C02.v — property C02: JSON save/load is lossless and carries a sufficient type system. *)
-From Cassis Require Import Base Heap Schema Canon Reach JsonDoc Json JsonProofs.
+(* Props/C02.v — property C02: JSON save/load is lossless and carries a sufficient type system.
+   Only the property theorems (closed by `exact`), Print Assumptions and non-vacuity examples.
+
+   Reading guide.  `denote_json L s d` (JsonDoc.v) is the declarative meaning of a JSON-CAS document; `save_json` /
+   `load_json` (Json.v) model cassis/json.py; `canon_json s c` is "the same CAS" (sofa data, view membership, every
+   structure under its id with every value, references as ids).  L is the lexical layer the format borrows (UTF-8 for
+   sofa text, base64 for byte arrays); `lex_ok L` is its contract.  Premises are booleans evaluated on every generated
+   case (CorrC02.premises): wf_jsonb (distinct view names and sofa ids, encodable texts, every structure found is typed,
+   has plain distinct feature names, arrays hold lists, annotations carry a sofa of this CAS and offsets inside its
+   text) and stableb (a second traversal finds the same structures — a ReachProofs fact not re-proved here). *)
+From Cassis Require Import Base Heap Schema Canon Reach JsonDoc Json JsonProofs CorrC02.
 Open Scope Z_scope.
+
+(* ---- per-kind: decoding what the writer encodes gives the canonical value ---- *)
 
 Theorem C02_special_float_roundtrip : forall x sp, special_flt x = Some sp -> den_special (JStr sp) = Ok (CFlt x).
 Proof. exact special_flt_spec. Qed.
 Print Assumptions C02_special_float_roundtrip.
+
+(* %ELEMENTS of every array kind: byte arrays through base64, float arrays with special-value strings, FSArray as ids
+   and nulls, the other primitive arrays as JSON values *)
+Theorem C02_elements_roundtrip : forall L c t l j, lex_ok L -> l <> [] ->
+  (String.eqb t T_FLOAT_ARRAY || String.eqb t T_DOUBLE_ARRAY = true ->
+     forallb (fun v => match v with VFlt _ => true | _ => false end) l = true) ->
+  enc_elements L c t l = Ok j ->
+  exists els, den_elements L t (Some j) = Ok els /\ cv_json c (VList l) = Ok (CColl "" els).
+Proof. exact elements_roundtrip. Qed.
+Print Assumptions C02_elements_roundtrip.
+
+(* one feature: plain key for primitives, '#' key for special floats, '@' key for references *)
+Theorem C02_feature_roundtrip : forall c s fd v1 ms, is_vnone v1 = false -> enc_value c s fd v1 = Ok ms ->
+  keyset_only ms (fd_xname fd) /\ exists w, cv_atom c v1 = Ok w /\ den_feature ms fd = Ok (fd_xname fd, w).
+Proof. exact enc_value_den. Qed.
+Print Assumptions C02_feature_roundtrip.
+
+(* one feature structure (any type, arrays included, offsets back to code points through the annotation's own sofa) *)
+Theorem C02_structure_roundtrip : forall L s c f i m stab,
+  lex_ok L -> o_id f = Some i -> obj_okb s c f = true -> stab_ok c stab -> enc_fs L s c f = Ok m ->
+  exists cf, canon_fs s c f = Ok cf /\ den_fs L s stab (i, m) = Ok (i, cf).
+Proof. exact den_fs_written. Qed.
+Print Assumptions C02_structure_roundtrip.
+
+(* one sofa with its view: text / mime / URI / byte array reference / members *)
+Theorem C02_sofa_roundtrip : forall L c sf ms views ids,
+  lex_ok L -> (match s_text sf with Some t => text_okb t = true | None => True end) ->
+  enc_sofa L c sf = Ok ms ->
+  alookup (s_name sf) views = Some (JObj [(K_SOFA, JInt (s_xid sf)); (K_MEMBERS, JArr (map JInt (zsort ids)))]) ->
+  exists arr, (match s_arr sf with None => Ok None | Some o => ref_id c (VRef o) end) = Ok arr /\
+  den_sofa L views (s_xid sf, ms) =
+    Ok (mkCsofa (s_xid sf) (s_num sf) (s_name sf) (s_text sf) (s_mime sf) (s_uri sf) arr (zsort ids)).
+Proof. exact den_sofa_written. Qed.
+Print Assumptions C02_sofa_roundtrip.
+
+(* ---- the document: for every CAS, every mode, the whole writer mechanism (views loop with id assignment to sofa byte
+   arrays, traversal, per-kind encoders, %TYPES) ---- *)
+Theorem C02_denote_save_json : forall L s mode c d c',
+  lex_ok L -> save_json L s mode c = Ok (d, c') -> wf_jsonb s c' = true -> stableb L s c = true ->
+  denote_json L s d = canon_json s c'.
+Proof. exact denote_save_json. Qed.
+Print Assumptions C02_denote_save_json.
+
+(* shared structures stay shared: a collection is a reference in JSON; whoever holds the object a denotes the id i, the
+   id i files exactly a, and a is filed once *)
+Theorem C02_shared_stays_shared : forall s c w a fa i,
+  find_all_fs true s c = Ok w -> In (i, a) (w_all w) -> hget (c_heap c) a = Some fa -> o_id fa = Some i ->
+  cv_json c (VRef a) = Ok (CRef i) /\ (forall o, In (i, o) (w_all w) -> o = a) /\ (forall j, In (j, a) (w_all w) -> j = i).
+Proof. exact shared_stays_shared. Qed.
+Print Assumptions C02_shared_stays_shared.
+
+(* ---- the embedded type system ---- *)
+
+(* transitive_closure (MINIMAL): contains the seeds, only known non-predefined types, and is closed under supertype,
+   feature range and element type of every effective feature *)
+Theorem C02_closure_closed : forall s fuel seeds r, tclosure fuel s [] seeds = Ok r ->
+  closed_under_refs s r /\
+  (forall t, In t seeds -> is_predefined t = true \/ In t r) /\
+  (forall t, In t r -> is_predefined t = false /\ sch_find s t <> None).
+Proof. exact closure_closed. Qed.
+Print Assumptions C02_closure_closed.
+
+(* what _serialize_feature writes and _parse_features reads back is the original declaration ("X[]" ranges included) *)
+Theorem C02_declaration_roundtrip : forall fd, fd_okb fd = true -> jdecl_of (jfeat_of fd) = norm_fd fd.
+Proof. exact jdecl_roundtrip. Qed.
+Print Assumptions C02_declaration_roundtrip.
+
+Theorem C02_embedded_ts_sufficient_minimal : forall s used decls,
+  schema_okb s = true -> ser_types s MMinimal used = Ok [(K_TYPES, JObj decls)] ->
+  exists names,
+    (forall t, In t used -> is_predefined t = true \/ In t names) /\
+    closed_under_refs s names /\
+    (forall t, In t names -> exists ti, sch_find s t = Some ti /\ (docann_default s ti = true \/ declared s decls t)).
+Proof. exact embedded_ts_sufficient_minimal. Qed.
+Print Assumptions C02_embedded_ts_sufficient_minimal.
+
+Theorem C02_embedded_ts_sufficient_full : forall s used decls,
+  schema_okb s = true -> ser_types s MFull used = Ok [(K_TYPES, JObj decls)] ->
+  forall t ti, sch_find s t = Some ti -> is_predefined t = false -> docann_default s ti = true \/ declared s decls t.
+Proof. exact embedded_ts_sufficient_full. Qed.
+Print Assumptions C02_embedded_ts_sufficient_full.
+
+(* regression (c9a01e4): with the old rule an extended DocumentAnnotation that the document uses was not declared *)
+Theorem C02_old_docann_skip_refuted :
+  exists s used decls ti, schema_okb s = true /\ ser_types_old s MFull used = Ok [(K_TYPES, JObj decls)] /\
+    In T_DOCANN used /\ sch_find s T_DOCANN = Some ti /\ is_predefined T_DOCANN = false /\ docann_default s ti = false /\
+    alookup T_DOCANN decls = None.
+Proof. exact old_docann_skip_refuted. Qed.
+Print Assumptions C02_old_docann_skip_refuted.
+
+(* ---- round trip and re-serialisation ----
+   Full statements (DESIGN.md section 5, C02):
+     json_roundtrip     : save_json L s mode c = Ok (d, c') -> wf.. -> load_json L s d = canon_json s c'
+     json_resave_equal  : the document written from the loaded CAS equals d as a JSON value modulo member order
+   What is proved: the round trip for every document on which the reader model agrees with the denotation (that
+   agreement — C05's load_json_is_denotation under doc_ok_json — is evaluated in Coq on every generated document, not
+   proved here), and equality of the denotations of the two documents; JSON-value equality of the re-serialisation is
+   established per case by the correspondence (model document = implementation document, both saves) and the oracle. *)
+Theorem C02_json_roundtrip_partial : forall L s mode c d c',
+  lex_ok L -> save_json L s mode c = Ok (d, c') -> wf_jsonb s c' = true -> stableb L s c = true ->
+  load_json L s d = denote_json L s d -> load_json L s d = canon_json s c'.
+Proof. exact json_roundtrip_given_reader. Qed.
+Print Assumptions C02_json_roundtrip_partial.
+
+Theorem C02_json_resave_equal_partial : forall L s m1 m2 c1 d1 c1' c2 d2 c2',
+  lex_ok L ->
+  save_json L s m1 c1 = Ok (d1, c1') -> wf_jsonb s c1' = true -> stableb L s c1 = true ->
+  save_json L s m2 c2 = Ok (d2, c2') -> wf_jsonb s c2' = true -> stableb L s c2 = true ->
+  canon_json s c1' = canon_json s c2' -> denote_json L s d1 = denote_json L s d2.
+Proof. exact json_resave_same_denotation. Qed.
+Print Assumptions C02_json_resave_equal_partial.
+
+(* ---- non-vacuity: a CAS with three views (BMP/astral text, a sofa byte array without id), an extended
+   DocumentAnnotation, annotations with offsets behind astral characters, arrays, reserved feature names, a shared
+   reference: the premises hold, the document is well-formed and denotes the canonical content ---- *)
+Definition ex_case : case :=
+  mkCase [mkTi "a.b.T0" ["a.b.T0"; "uima.tcas.Annotation"; "uima.cas.AnnotationBase"; "uima.cas.TOP"] [mkFd "f0" "f0" "uima.cas.FSArray" (Some "NoNs") false; mkFd "type_" "type" "a.c.T1" None false; mkFd "self_" "self" "a.c.T1" None false; mkFd "g3" "g3" "uima.cas.IntegerArray" None false; mkFd "begin" "begin" "uima.cas.Integer" None false; mkFd "end" "end" "uima.cas.Integer" None false; mkFd "sofa" "sofa" "uima.cas.Sofa" None false];
+    mkTi "a.c.T1" ["a.c.T1"; "uima.cas.TOP"] [mkFd "f0" "f0" "uima.cas.FSArray" (Some "NoNs") false];
+    mkTi "x.b.T2" ["x.b.T2"; "uima.tcas.Annotation"; "uima.cas.AnnotationBase"; "uima.cas.TOP"] [mkFd "f0" "f0" "uima.cas.IntegerList" None false; mkFd "f1" "f1" "a.MyStr" None false; mkFd "begin" "begin" "uima.cas.Integer" None false; mkFd "end" "end" "uima.cas.Integer" None false; mkFd "sofa" "sofa" "uima.cas.Sofa" None false];
+    mkTi "NoNs" ["NoNs"; "x.b.T2"; "uima.tcas.Annotation"; "uima.cas.AnnotationBase"; "uima.cas.TOP"] [mkFd "begin" "begin" "uima.cas.Integer" None false; mkFd "end" "end" "uima.cas.Integer" None false; mkFd "sofa" "sofa" "uima.cas.Sofa" None false; mkFd "f0" "f0" "uima.cas.IntegerList" None false; mkFd "f1" "f1" "a.MyStr" None false];
+    mkTi "a.MyStr" ["a.MyStr"; "uima.cas.String"; "uima.cas.TOP"] [];
+    mkTi "uima.tcas.DocumentAnnotation" ["uima.tcas.DocumentAnnotation"; "uima.tcas.Annotation"; "uima.cas.AnnotationBase"; "uima.cas.TOP"] [mkFd "language" "language" "uima.cas.String" None false; mkFd "docId" "docId" "uima.cas.String" None false; mkFd "docRef" "docRef" "a.c.T1" None false; mkFd "begin" "begin" "uima.cas.Integer" None false; mkFd "end" "end" "uima.cas.Integer" None false; mkFd "sofa" "sofa" "uima.cas.Sofa" None false]] None MMinimal
+   (mkCas [mkView (mkSofa 1%Z 1%Z "_InitialView" (Some [20013%N; 25991%N; 127465%N; 127466%N; 769%N; 97%N]) None None None) [1%N]; mkView (mkSofa 2%Z 2%Z "view1" (Some [97%N; 128512%N; 98%N; 65536%N; 99%N; 233%N]) None None None) [3%N]; mkView (mkSofa 3%Z 3%Z "view2" None (Some "text/plain") (Some "file:/tmp/x.bin") (Some 5%N)) []] [(1%N, mkFs "a.b.T0" (Some 23%Z) [("sofa", VSofa "_InitialView"); ("begin", VInt 5%Z); ("end", VInt 6%Z); ("type_", VRef 2%N); ("self_", VRef 2%N); ("g3", VRef 4%N)]);
+    (2%N, mkFs "a.c.T1" None []);
+    (3%N, mkFs "x.b.T2" (Some 9%Z) [("sofa", VSofa "view1"); ("begin", VInt 5%Z); ("end", VInt 6%Z)]);
+    (4%N, mkFs "uima.cas.IntegerArray" (Some 41%Z) [("elements", VList [])]);
+    (5%N, mkFs "uima.cas.ByteArray" (Some 32%Z) [("elements", VList [(VInt 255%Z)])])] 24%Z)
+   (JObj [("%TYPES", JObj [("NoNs", JObj [("%NAME", JStr "NoNs"); ("%SUPER_TYPE", JStr "x.b.T2")]); ("a.MyStr", JObj [("%NAME", JStr "a.MyStr"); ("%SUPER_TYPE", JStr "uima.cas.String")]); ("a.b.T0", JObj [("%NAME", JStr "a.b.T0"); ("%SUPER_TYPE", JStr "uima.tcas.Annotation"); ("f0", JObj [("%NAME", JStr "f0"); ("%RANGE", JStr "NoNs[]")]); ("type", JObj [("%NAME", JStr "type"); ("%RANGE", JStr "a.c.T1")]); ("self", JObj [("%NAME", JStr "self"); ("%RANGE", JStr "a.c.T1")]); ("g3", JObj [("%NAME", JStr "g3"); ("%RANGE", JStr "uima.cas.Integer[]"); ("%MULTIPLE_REFERENCES_ALLOWED", JBool false)])]); ("a.c.T1", JObj [("%NAME", JStr "a.c.T1"); ("%SUPER_TYPE", JStr "uima.cas.TOP"); ("f0", JObj [("%NAME", JStr "f0"); ("%RANGE", JStr "NoNs[]")])]); ("x.b.T2", JObj [("%NAME", JStr "x.b.T2"); ("%SUPER_TYPE", JStr "uima.tcas.Annotation"); ("f0", JObj [("%NAME", JStr "f0"); ("%RANGE", JStr "uima.cas.IntegerList"); ("%MULTIPLE_REFERENCES_ALLOWED", JBool false)]); ("f1", JObj [("%NAME", JStr "f1"); ("%RANGE", JStr "a.MyStr")])])]); ("%FEATURE_STRUCTURES", JArr [(JObj [("%ID", JInt 1%Z); ("%TYPE", JStr "uima.cas.Sofa"); ("sofaNum", JInt 1%Z); ("sofaID", JStr "_InitialView"); ("sofaString", JStr (String (Ascii.ascii_of_N 228%N) (String (Ascii.ascii_of_N 184%N) (String (Ascii.ascii_of_N 173%N) (String (Ascii.ascii_of_N 230%N) (String (Ascii.ascii_of_N 150%N) (String (Ascii.ascii_of_N 135%N) (String (Ascii.ascii_of_N 240%N) (String (Ascii.ascii_of_N 159%N) (String (Ascii.ascii_of_N 135%N) (String (Ascii.ascii_of_N 169%N) (String (Ascii.ascii_of_N 240%N) (String (Ascii.ascii_of_N 159%N) (String (Ascii.ascii_of_N 135%N) (String (Ascii.ascii_of_N 170%N) (String (Ascii.ascii_of_N 204%N) (String (Ascii.ascii_of_N 129%N) (String (Ascii.ascii_of_N 97%N) EmptyString))))))))))))))))))]); (JObj [("%ID", JInt 2%Z); ("%TYPE", JStr "uima.cas.Sofa"); ("sofaNum", JInt 2%Z); ("sofaID", JStr "view1"); ("sofaString", JStr (String (Ascii.ascii_of_N 97%N) (String (Ascii.ascii_of_N 240%N) (String (Ascii.ascii_of_N 159%N) (String (Ascii.ascii_of_N 152%N) (String (Ascii.ascii_of_N 128%N) (String (Ascii.ascii_of_N 98%N) (String (Ascii.ascii_of_N 240%N) (String (Ascii.ascii_of_N 144%N) (String (Ascii.ascii_of_N 128%N) (String (Ascii.ascii_of_N 128%N) (String (Ascii.ascii_of_N 99%N) (String (Ascii.ascii_of_N 195%N) (String (Ascii.ascii_of_N 169%N) EmptyString))))))))))))))]); (JObj [("%ID", JInt 32%Z); ("%TYPE", JStr "uima.cas.ByteArray"); ("%ELEMENTS", JStr "/w==")]); (JObj [("%ID", JInt 3%Z); ("%TYPE", JStr "uima.cas.Sofa"); ("sofaNum", JInt 3%Z); ("sofaID", JStr "view2"); ("mimeType", JStr "text/plain"); ("@sofaArray", JInt 32%Z); ("sofaURI", JStr "file:/tmp/x.bin")]); (JObj [("%ID", JInt 9%Z); ("%TYPE", JStr "x.b.T2"); ("begin", JInt 7%Z); ("end", JInt 8%Z); ("@sofa", JInt 2%Z)]); (JObj [("%ID", JInt 23%Z); ("%TYPE", JStr "a.b.T0"); ("@type", JInt 24%Z); ("@self", JInt 24%Z); ("@g3", JInt 41%Z); ("begin", JInt 7%Z); ("end", JInt 8%Z); ("@sofa", JInt 1%Z)]); (JObj [("%ID", JInt 24%Z); ("%TYPE", JStr "a.c.T1")]); (JObj [("%ID", JInt 41%Z); ("%TYPE", JStr "uima.cas.IntegerArray")])]); ("%VIEWS", JObj [("_InitialView", JObj [("%SOFA", JInt 1%Z); ("%MEMBERS", JArr [(JInt 23%Z)])]); ("view1", JObj [("%SOFA", JInt 2%Z); ("%MEMBERS", JArr [(JInt 9%Z)])]); ("view2", JObj [("%SOFA", JInt 3%Z); ("%MEMBERS", JArr [])])])])
+   (mkCcas [mkCsofa 1%Z 1%Z "_InitialView" (Some [20013%N; 25991%N; 127465%N; 127466%N; 769%N; 97%N]) None None None [23%Z]; mkCsofa 2%Z 2%Z "view1" (Some [97%N; 128512%N; 98%N; 65536%N; 99%N; 233%N]) None None None [9%Z]; mkCsofa 3%Z 3%Z "view2" None (Some "text/plain") (Some "file:/tmp/x.bin") (Some 32%Z) []] [(9%Z, mkCfs "x.b.T2" [("begin", CInt 5%Z); ("end", CInt 6%Z); ("f0", CNull); ("f1", CNull); ("sofa", CRef 2%Z)]);
+    (23%Z, mkCfs "a.b.T0" [("begin", CInt 5%Z); ("end", CInt 6%Z); ("f0", CNull); ("g3", CRef 41%Z); ("self", CRef 24%Z); ("sofa", CRef 1%Z); ("type", CRef 24%Z)]);
+    (24%Z, mkCfs "a.c.T1" [("f0", CNull)]);
+    (32%Z, mkCfs "uima.cas.ByteArray" [("elements", CColl "" [(CInt 255%Z)])]);
+    (41%Z, mkCfs "uima.cas.IntegerArray" [("elements", CColl "" [])])])
+   (mkCcas [mkCsofa 1%Z 1%Z "_InitialView" (Some [20013%N; 25991%N; 127465%N; 127466%N; 769%N; 97%N]) None None None [23%Z]; mkCsofa 2%Z 2%Z "view1" (Some [97%N; 128512%N; 98%N; 65536%N; 99%N; 233%N]) None None None [9%Z]; mkCsofa 3%Z 3%Z "view2" None (Some "text/plain") (Some "file:/tmp/x.bin") (Some 32%Z) []] [(9%Z, mkCfs "x.b.T2" [("begin", CInt 5%Z); ("end", CInt 6%Z); ("f0", CNull); ("f1", CNull); ("sofa", CRef 2%Z)]);
+    (23%Z, mkCfs "a.b.T0" [("begin", CInt 5%Z); ("end", CInt 6%Z); ("f0", CNull); ("g3", CRef 41%Z); ("self", CRef 24%Z); ("sofa", CRef 1%Z); ("type", CRef 24%Z)]);
+    (24%Z, mkCfs "a.c.T1" [("f0", CNull)]);
+    (32%Z, mkCfs "uima.cas.ByteArray" [("elements", CColl "" [(CInt 255%Z)])]);
+    (41%Z, mkCfs "uima.cas.IntegerArray" [("elements", CColl "" [])])])
+   None.
+Example C02_premises_hold :
+  let s := full_schema (c_user ex_case) in
+  match save_json std_lex s MMinimal (c_cas ex_case) with
+  | Ok (d, c') =>
+      wf_jsonb s c' = true /\ stableb std_lex s (c_cas ex_case) = true /\ ids_distinctb s c' = true /\
+      schema_okb s = true /\ doc_ok_json std_lex s d = true /\
+      denote_json std_lex s d = canon_json s c' /\ load_json std_lex s d = canon_json s c' /\
+      (3 <= List.length (c_views c'))%nat /\ (5 <= List.length (c_heap c'))%nat
+  | _ => False
+  end.
+Proof. vm_compute. repeat split; try reflexivity; repeat constructor. Qed.
